@@ -424,7 +424,10 @@ let run_opt k c impl =
      let srv = fget fa "servers" in
      if srv = "(null)" then
        (* ares_get_servers_csv() returned NULL for a channel that has servers *)
-       pr "FAIL %d csv-unrenderable dup-st=%s\n" k (match impl_line impl k "C" with Some dc -> fget (fields dc) "st" | None -> "?")
+       pr "FAIL %d csv-unrenderable dup-st=%s ifaces=%s\n" k (match impl_line impl k "C" with Some dc -> fget (fields dc) "st" | None -> "?")
+         (match impl_line impl k "Ai" with
+          | Some l -> String.concat "," (List.map (fun h -> String.map (fun ch -> if ch <= ' ' || ch > '~' then '?' else ch) (unhex h)) (split_on ',' (fget (fields l) "ifaces")))
+          | None -> "?")
      else if srv <> "." then begin
      let effp f = let v = fget fa f in if v = "0" then "53" else v in
      let expressible = not (contains "[" srv) && not (contains "dns:" srv) && effp "udp" = effp "tcp" &&
@@ -436,6 +439,9 @@ let run_opt k c impl =
      (match impl_line impl k "C" with
       | Some dc -> cmp_fields "dup-loss" dc (base @ ["servers"; "ldev"; "lip4"; "lip6"; "aif"])
       | None -> ());
+     (match impl_line impl k "C2" with
+      | Some l when fget (fields l) "sf" <> "1" -> pr "FAIL %d dup-loss sockfuncs:not-copied\n" k
+      | _ -> ());
      List.iter (fun t -> match impl_line impl k t with
          | Some dd -> let fd = fields dd in
            if fget fd "st" <> "0" || fget fd "servers" <> srv then
